@@ -24,7 +24,7 @@ RULE = ("responses = {GET,HEAD} x {persistent,not} x status{200,204,304} x 0..2 
         "headers are complete, failure if they never are), body bytes = body bytes delivered, consumer "
         "connectionLost once with ResponseDone / PotentialDataLoss / other failure. "
         "non-trivial = executions whose truncation or cut falls strictly inside the message")
-BOUNDS = {"quick": "71 responses x every truncation x {whole, bytewise, every 1-cut} x 3 consumer timings",
+BOUNDS = {"quick": "64 responses x every truncation x {whole, bytewise, every 1-cut} x 3 consumer timings",
           "thorough": "~250 responses (full product of method x persistence x status x framing x line ending, interim x framing, bodies x framing, extras); additionally every 2-cut of each full response"}
 ASSUMPTIONS = [
     "the transport is the in-memory MemTransport: while the client has paused it nothing is delivered, so a "
@@ -67,7 +67,7 @@ def build(spec):
         icode, ihdr = extra[1:4], extra[5:]
         out += b"HTTP/1.1 " + icode.encode() + (b" Continue" if icode == "100" else b" Early Hints") + nl
         out += {"cl0": b"Content-Length: 0", "cl5": b"Content-Length: 5", "te": b"Transfer-Encoding: chunked",
-                "close": b"Connection: close"}[ihdr] + nl + b"X-Interim: y" + nl + nl
+                "close": b"Connection: close"}[ihdr] + nl + nl
     version = b"HTTP/1.0" if extra == "http10" else b"HTTP/1.1"
     reason = {200: b" OK", 204: b" No Content", 304: b" Not Modified"}[status]
     if extra == "noreason":
@@ -158,12 +158,13 @@ def specs(tier):
         add(framing="cl", extra="case-upper", persistent=True)
         add(framing="cl-dup", extra="case-mixed")
         add(framing="close", extra="case-mixed", persistent=True)
-        for k, framing in enumerate(("cl", "chunked1", "close")):
-            for j, ihdr in enumerate(("cl0", "cl5", "te", "close")):
-                add(framing=framing, extra="i10%d-%s" % ((k + j) % 2 * 3, ihdr), persistent=bool(j % 2),
-                    eol="lf" if (k + j) % 3 == 2 else "crlf")
-        add(framing="none", body=b"", extra="i103-cl5")
-        add(framing="cl", status=204, extra="i100-te")
+        add(framing="cl", extra="i100-cl0")
+        add(framing="cl", extra="i103-te", persistent=True)
+        add(framing="chunked1", extra="i103-cl5", eol="lf")
+        add(framing="chunked1", extra="i100-close", persistent=True)
+        add(framing="close", extra="i100-cl0", persistent=True)
+        add(framing="close", extra="i103-cl5")
+        add(framing="close", extra="i100-te", eol="lf")
         return out
     out.extend(specs("quick"))
     base = ("cl", "chunked1", "chunked2", "close", "none")
